@@ -149,12 +149,23 @@ def run(ctx):
         elif t == 1:
             # ... and one while the first executed step is in flight
             kill_at = len(skip) + 1
-        extra = dict(VERIF_ROOT=root, VERIF_PROBE_LOG=probe_log, VERIF_PROBE_PLAN=plan, VERIF_KILL_AT=str(kill_at), VERIF_KILL_CNT=cnt,
+        # every third run the orchestrator is first asked to terminate (its exit handler runs), then killed
+        killsig = "TERM" if t % 3 == 1 else "KILL"
+        extra = dict(VERIF_ROOT=root, VERIF_PROBE_LOG=probe_log, VERIF_PROBE_PLAN=plan, VERIF_KILL_AT=str(kill_at), VERIF_KILL_CNT=cnt, VERIF_KILL_SIG=killsig,
                      VERIF_ORCH_PGID=os.path.join(root, "pgid"), VERIF_REAL_STEP=os.path.join(d, "robsd-step"),
                      ROBSDSTEP=os.path.join(sh.bin, "robsd-step-wrap"), ROBSDCONF=conf)
         rc1, o1, e1 = sh.run_script("canvas", ["-d", "-C", conf], extra=extra, pgid_file=os.path.join(root, "pgid"))
         builds = sorted(x for x in os.listdir(root) if x[:2] == "20")
         if not builds:
+            plog = open(probe_log).read() if os.path.exists(probe_log) else ""
+            started0 = [l.split()[1] for l in plog.split("\n") if l.startswith("start ")]
+            kl = [l for l in plog.split("\n") if l.startswith("killed after write")]
+            if kl and " skip=0" in kl[0] and not started0:
+                started0 = [w.split("=", 1)[1] for w in kl[0].split() if w.startswith("name=")]
+            if started0:
+                # a step had been started (its in-flight record written): the interrupted invocation must stay resumable
+                ctx.violation("the invocation directory is gone after the orchestrator was interrupted (%s after write %d of %d) while step %s was in flight: nothing to resume" % (
+                    killsig, kill_at, nwrites, started0[-1]), dict(conf=open(conf).read(), kill_at=kill_at, signal=killsig, started=started0, stderr=e1.decode(errors="replace")[-300:]))
             continue
         bdir = os.path.join(root, builds[0])
         # the crash left the lock behind: every other run resumes with the stale lock in place (the same
@@ -172,6 +183,10 @@ def run(ctx):
         open(probe_log, "a").write("--- resume\n")
         extra2 = dict(extra)
         extra2.pop("VERIF_KILL_AT")
+        if not os.path.isdir(bdir):
+            ctx.violation("the invocation directory of an interrupted invocation (%s, write %d of %d) is gone: nothing to resume" % (killsig, kill_at, nwrites),
+                          dict(conf=open(conf).read(), kill_at=kill_at, signal=killsig, step_csv=csv_before.decode(), first_run=first, stderr=e1.decode(errors="replace")[-300:]))
+            continue
         with open(plan, "w") as f:
             for nm in names:
                 f.write("%s 0 0\n" % nm)
@@ -206,6 +221,7 @@ def run(ctx):
         wants.append(None)
         infos.append(dict(kind="e2e", second=second, rc2=rc2, names=names))
         kinds["e2e-kill@%s" % ("skipphase" if kill_at <= len(skip) else "steps")] = kinds.get("e2e-kill@%s" % ("skipphase" if kill_at <= len(skip) else "steps"), 0) + 1
+        kinds["e2e-%s" % killsig] = kinds.get("e2e-%s" % killsig, 0) + 1
         kinds["e2e-resume-%s-lock" % ("stale" if stale else "no")] = kinds.get("e2e-resume-%s-lock" % ("stale" if stale else "no"), 0) + 1
     ans = ctx.model(reqs)
     for q, a, w, info in zip(reqs, ans, wants, infos):
